@@ -95,6 +95,8 @@ def c15(tier):
     s2 = [(4, 1, 0), (4, 1, 1)] if tier == "quick" else [(4, 1, 0), (4, 2, 0), (4, 1, 1), (6, 2, 1)]
     for c in s2:
         jobs.append(Job("h_c15::stage_roundtrip", c, dict(S2), budget_s=3000, validate=30))
+    # two staged operations (chains of revisions of one object) with one reversed hash iteration (order of exported records)
+    jobs.append(Job("h_c15::stage_roundtrip", (4, 2, 0), dict(S2, hash_order="two", nd_budget=1), budget_s=3000, validate=20, native_repeats=3))
     return dict(jobs=jobs, bounds={"tree level [committed, digest class, staged]": [list(c) for c in combos],
                                    "melda level [doc orders, staged ops, object conflict present]": [list(c) for c in s2],
                                    "staged ops": "update to a symbolic document, delete_object (payload-free stage), reorder + value change"},
